@@ -18,7 +18,6 @@ import (
 	"path/filepath"
 	"runtime"
 	"runtime/debug"
-	"runtime/pprof"
 	"sort"
 	"strconv"
 	"strings"
@@ -30,16 +29,16 @@ import (
 	"github.com/tsawler/tabula/core"
 	"github.com/tsawler/tabula/docx"
 	"github.com/tsawler/tabula/epubdoc"
+	"github.com/tsawler/tabula/font"
+	"github.com/tsawler/tabula/format"
 	"github.com/tsawler/tabula/htmldoc"
 	"github.com/tsawler/tabula/odt"
 	"github.com/tsawler/tabula/pptx"
-	"github.com/tsawler/tabula/reader"
-	"github.com/tsawler/tabula/xlsx"
-	"github.com/tsawler/tabula/font"
-	"github.com/tsawler/tabula/format"
 	"github.com/tsawler/tabula/rag"
+	"github.com/tsawler/tabula/reader"
 	"github.com/tsawler/tabula/text"
 	"github.com/tsawler/tabula/verifrt"
+	"github.com/tsawler/tabula/xlsx"
 	"verif/internal/harness"
 )
 
@@ -370,6 +369,7 @@ type runner struct {
 	maxDepth int
 	stop     bool
 	phase    int
+	sites    map[string]int
 }
 
 const allocMax = 64 << 20
@@ -912,32 +912,13 @@ func run(e *harness.Env) {
 	t0 := time.Now()
 	dir := harness.Scratch()
 	defer os.RemoveAll(dir)
-	if pf := os.Getenv("C02_PROF"); pf != "" { // development aid
-		f, _ := os.Create(fmt.Sprintf("%s.%d", pf, os.Getpid()))
-		pprof.StartCPUProfile(f)
-		defer pprof.StopCPUProfile()
-	}
-	r := &runner{e: e, dir: dir}
+	r := &runner{e: e, dir: dir, sites: map[string]int{}}
 	bases := allBases()
 	var bis []*baseInfo
 	for i := range bases {
 		bis = append(bis, info(&bases[i]))
 	}
 	r.measure(bis)
-	if os.Getenv("C02_BENCH") != "" {
-		for _, bi := range bis {
-			d := &doc{b: bi.b}
-			r.build(bi, d)
-			for _, ent := range r.entriesFor(bi, nil, "full") {
-				t0 := time.Now()
-				for i := 0; i < 200; i++ {
-					r.call(func() error { return ent.run(&d.ctx) })
-				}
-				fmt.Fprintf(os.Stderr, "%-12s %-32s %8.1f us  ticks=%d\n", bi.b.name, ent.name, float64(time.Since(t0).Microseconds())/200, verifrt.Ticks)
-			}
-		}
-		os.Exit(0)
-	}
 	only := os.Getenv("C02_BASE") // development aid: restrict to some bases
 	sel := func(bi *baseInfo) bool {
 		return only == "" || strings.Contains(","+only+",", ","+bi.b.name+",")
@@ -955,10 +936,9 @@ func run(e *harness.Env) {
 			}
 		}
 	}
-	pprof.StopCPUProfile()
+	e.Note("structural_sites", fmt.Sprintf("raw=%d pdf-object-layer=%d zip-member-layer=%d (fault sites of classes 2-6, each run through the full entry list)", r.sites["raw"], r.sites["obj"], r.sites["member"]))
 	e.Max("case_ticks_max", r.maxTicks)
 	e.Max("case_depth_max", int64(r.maxDepth))
 	os.RemoveAll(dir)
 }
 
-var _ = sort.Ints
